@@ -164,6 +164,12 @@ pub enum Deviation {
     LeafOtherFabric,
     /// ICAC/RCAC carries a fabric id different from the leaf's
     AuthorityOtherFabric { pos: Pos },
+    /// A consistent chain of ANOTHER fabric B under the same root: the ICAC and the leaf both
+    /// carry fabric id B, everything links up; the root is shared by the fabrics (it carries
+    /// no fabric id, or the id of fabric A when `root_names_a`)
+    ConsistentForeignFabric { root_names_a: bool },
+    /// The ICAC carries a foreign fabric id B while the leaf carries the right one (A)
+    IcacForeignFabric,
     // ---- chain structure --------------------------------------------------------------
     SwapLeafAndIca,
     SwapIcaAndRoot,
@@ -183,10 +189,13 @@ pub enum Deviation {
 }
 
 impl Deviation {
-    fn forces_icac(&self) -> Option<bool> {
+    /// Some deviations only make sense with (or without) an intermediate and override
+    /// `ChainParams::with_icac`.
+    pub fn forces_icac(&self) -> Option<bool> {
         use Deviation::*;
         match self {
             PathLenZeroWithIca | SwapLeafAndIca | SwapIcaAndRoot | RepeatIca | OmitIca => Some(true),
+            ConsistentForeignFabric { .. } | IcacForeignFabric => Some(true),
             LeafAsAuthority => Some(false),
             _ => None,
         }
@@ -208,6 +217,8 @@ impl Deviation {
                 | LeafAsAuthority
                 | CaAsLeaf { .. }
                 | PathLenZeroWithIca
+                | ConsistentForeignFabric { .. }
+                | IcacForeignFabric
         )
     }
 
@@ -251,6 +262,8 @@ impl Deviation {
             LeafNoFabricId => "leaf-no-fabric-id",
             LeafOtherFabric => "leaf-other-fabric",
             AuthorityOtherFabric { .. } => "authority-other-fabric",
+            ConsistentForeignFabric { .. } => "consistent-foreign-fabric",
+            IcacForeignFabric => "icac-foreign-fabric",
             SwapLeafAndIca => "swap-leaf-ica",
             SwapIcaAndRoot => "swap-ica-root",
             RepeatLeaf => "repeat-leaf",
@@ -500,6 +513,35 @@ fn edit_dn(dn: &mut Vec<DnAttr>, how: DnEdit, sel: u16) {
     }
     if *dn == orig {
         dn.push(DnAttr::text(dn_tag::NAME, false, "forged"));
+    }
+}
+
+fn foreign_fabric(a: u64) -> u64 {
+    match a ^ 0x20 {
+        0 => 0x21,
+        v => v,
+    }
+}
+
+fn set_fabric(dn: &mut Vec<DnAttr>, fabric_id: u64) {
+    let attr = DnAttr::id(dn_tag::FABRIC_ID, fabric_id);
+    if let Some(a) = dn.iter_mut().find(|a| a.tag == dn_tag::FABRIC_ID) {
+        *a = attr;
+    } else {
+        dn.push(attr);
+    }
+}
+
+/// An ICAC that carries a fabric id must carry the one of the NOC it issued (Matter Core
+/// spec, operational certificate DN rules; CASE checks it while validating the peer's chain).
+/// The bare sequence interface and the installing commands are left undecided.
+fn icac_fabric_mismatch() -> Truth {
+    Truth {
+        rule: "authority-fabric-id",
+        chain: Expect::Either,
+        case: Expect::Reject,
+        add_noc: Expect::Either,
+        update_noc: Expect::Either,
     }
 }
 
@@ -952,7 +994,52 @@ pub fn forge<C: Crypto>(
                         leaf.spec.issuer = new_subject;
                     }
                 }
-                Truth::all("authority-fabric-id", Expect::Either)
+                if is_ica {
+                    icac_fabric_mismatch()
+                } else {
+                    Truth::all("authority-fabric-id", Expect::Either)
+                }
+            }
+            ConsistentForeignFabric { root_names_a } => {
+                let b = foreign_fabric(p.fabric_id);
+                // the shared root: without fabric id, or with fabric A's
+                let old_root = root.spec.subject.clone();
+                root.spec.subject.retain(|a| a.tag != dn_tag::FABRIC_ID);
+                if root_names_a {
+                    root.spec.subject.push(DnAttr::id(dn_tag::FABRIC_ID, p.fabric_id));
+                }
+                if root.spec.issuer == old_root {
+                    root.spec.issuer = root.spec.subject.clone();
+                }
+                if ica.spec.issuer == old_root {
+                    ica.spec.issuer = root.spec.subject.clone();
+                }
+                // ICAC of fabric B
+                let old_ica = ica.spec.subject.clone();
+                set_fabric(&mut ica.spec.subject, b);
+                if leaf.spec.issuer == old_ica {
+                    leaf.spec.issuer = ica.spec.subject.clone();
+                }
+                // leaf of fabric B
+                set_fabric(&mut leaf.spec.subject, b);
+                // A perfectly valid chain - of fabric B. Only a root that names fabric A is at
+                // odds with it, on which the statement is silent.
+                let free = if root_names_a { Expect::Either } else { Expect::Accept };
+                Truth {
+                    rule: "leaf-fabric-id",
+                    chain: free,
+                    case: Expect::Reject,
+                    add_noc: free,
+                    update_noc: Expect::Reject,
+                }
+            }
+            IcacForeignFabric => {
+                let old_ica = ica.spec.subject.clone();
+                set_fabric(&mut ica.spec.subject, foreign_fabric(p.fabric_id));
+                if leaf.spec.issuer == old_ica {
+                    leaf.spec.issuer = ica.spec.subject.clone();
+                }
+                icac_fabric_mismatch()
             }
             SwapLeafAndIca => {
                 present = Present::SwapLeafIca;
